@@ -62,6 +62,21 @@ Lemma filter_length_split : forall (A : Type) (f : A -> bool) l,
   (length (filter f l) + length (filter (fun x => negb (f x)) l) = length l)%nat.
 Proof. induction l; simpl; auto. destruct (f a); simpl; lia. Qed.
 
+Lemma filter_length_le' : forall (A : Type) (f : A -> bool) l, (length (filter f l) <= length l)%nat.
+Proof. induction l; simpl; auto. destruct (f a); simpl; lia. Qed.
+
+Lemma filter_all_true' : forall (A : Type) (f : A -> bool) l, (forall x, In x l -> f x = true) -> filter f l = l.
+Proof. induction l; simpl; intros; auto. rewrite H by auto. f_equal. apply IHl. auto. Qed.
+
+Lemma NoDup_app_one : forall (l : list Z) x, NoDup l -> ~ In x l -> NoDup (l ++ [x]).
+Proof.
+  induction l as [|y t IH]; simpl; intros x N H.
+  - constructor; auto.
+  - inversion N; subst. constructor.
+    + intros Q. apply in_app_or in Q. destruct Q as [Q|[Q|[]]]; auto.
+    + apply IH; auto.
+Qed.
+
 Lemma remove_wk_In : forall p x l, In x (remove_wk p l) <-> In x l /\ w_pid x <> p.
 Proof. unfold remove_wk; intros. rewrite filter_In. rewrite negb_true_iff, Z.eqb_neq. tauto. Qed.
 
